@@ -352,10 +352,13 @@ impl ConfigLockfile {
 // Returns the keys stored in `trie` that are `path` itself or one of its ancestor
 // directories. A raw common-prefix search compares bytes, so it would also return
 // siblings that merely share a string prefix (e.g. `app` for `app2/src/main.rs`);
-// only matches that end on a path component boundary are kept.
+// only matches that end on a path component boundary are kept. A key written with a
+// trailing slash (`lib/`) ends on one by itself.
 pub(crate) fn path_prefix_search(trie: &Trie<u8>, path: &str) -> Vec<String> {
     trie.common_prefix_search(path)
-        .filter(|m: &String| m.len() == path.len() || path.as_bytes()[m.len()] == b'/')
+        .filter(|m: &String| {
+            m.len() == path.len() || m.ends_with('/') || path.as_bytes()[m.len()] == b'/'
+        })
         .collect()
 }
 
